@@ -11,6 +11,7 @@ import (
 	"sync/atomic"
 	"testing"
 
+	pongo2 "github.com/flosch/pongo2/v6"
 	"pgregory.net/rapid"
 )
 
@@ -224,3 +225,106 @@ var _ = register(&propSpec{
 })
 
 func TestC05RaceOnly(t *testing.T) { runProp(t, "C05.raceonly") }
+
+// ---- C05.coldset: the first compilations on a set happen concurrently --------------------------
+// "compile or fetch templates from the same set at the same time" includes the very first
+// moment of a set: nothing has been compiled yet and k goroutines ask at once.
+
+type c05ColdCase struct {
+	Prog    *Program `json:"prog"`
+	Trim    bool     `json:"trim"`
+	LStrip  bool     `json:"lstrip"`
+	Ops     []string `json:"ops"` // one per goroutine: FromFile | FromCache | FromString | FromBytes | RenderTemplateFile
+	Variant int      `json:"variant"`
+}
+
+func checkC05Cold(c any, r *Rec) error {
+	cs := c.(*c05ColdCase)
+	_, ref, _, err := compileProgram(cs.Prog, cs.Trim, cs.LStrip)
+	if err != nil {
+		return skipf("program does not compile: %v", err)
+	}
+	wantOut, wantErr := c04Exec(ref, c04Step{Variant: cs.Variant, Entry: "Execute"})
+	ld := newMemLoader(copyFiles(cs.Prog.Files))
+	set := pongo2.NewSet("cold", ld)
+	set.Options.TrimBlocks = cs.Trim
+	set.Options.LStripBlocks = cs.LStrip
+	src := cs.Prog.Files[cs.Prog.Entry]
+	var wg sync.WaitGroup
+	start := make(chan struct{})
+	var mu sync.Mutex
+	var bad []string
+	for g, op := range cs.Ops {
+		wg.Add(1)
+		go func(g int, op string) {
+			defer wg.Done()
+			<-start
+			var tpl *pongo2.Template
+			var err error
+			var out, e string
+			switch op {
+			case "FromCache":
+				tpl, err = set.FromCache(cs.Prog.Entry)
+			case "FromString":
+				tpl, err = set.FromString(src)
+			case "FromBytes":
+				tpl, err = set.FromBytes([]byte(src))
+			case "RenderTemplateFile":
+				out, err = set.RenderTemplateFile(cs.Prog.Entry, progContext(cs.Variant, &tickState{}))
+				e = errText(err)
+				err = nil
+			default:
+				tpl, err = set.FromFile(cs.Prog.Entry)
+			}
+			if err != nil {
+				mu.Lock()
+				bad = append(bad, fmt.Sprintf("goroutine %d: %s failed although the same sources compile when asked alone: %v", g, op, err))
+				mu.Unlock()
+				return
+			}
+			if tpl != nil {
+				out, e = c04Exec(tpl, c04Step{Variant: cs.Variant, Entry: "Execute"})
+			}
+			same := out == wantOut && e == wantErr
+			if wantErr != "<nil>" && (op == "FromString" || op == "FromBytes" || op == "RenderTemplateFile") {
+				same = e != "<nil>" // the error text names the template, which has another name here
+			}
+			if !same {
+				mu.Lock()
+				bad = append(bad, fmt.Sprintf("goroutine %d (%s): got %q / %s, alone it gives %q / %s", g, op, out, e, wantOut, wantErr))
+				mu.Unlock()
+			}
+		}(g, op)
+	}
+	close(start)
+	wg.Wait()
+	if len(bad) > 0 {
+		return fmt.Errorf("concurrent first compilations on a fresh set differ from compiling alone (TrimBlocks=%v LStripBlocks=%v):\n %s\n root=%q", cs.Trim, cs.LStrip, strings.Join(bad, "\n "), src)
+	}
+	r.Class(fmt.Sprintf("goroutines:%d", len(cs.Ops)))
+	r.NonTrivial(fmt.Sprintf("%v|%v|%v|%v", cs.Prog.Files, cs.Trim, cs.LStrip, cs.Ops))
+	return nil
+}
+
+var _ = register(&propSpec{
+	ID:    "C05.coldset",
+	Journ: true,
+	Rule:  "a set that has not created any template yet is asked by 2-8 goroutines at once (barrier) to FromFile / FromCache / FromString / FromBytes / RenderTemplateFile the same generated program (includes, inheritance, macros, both trim options); under the race detector; every goroutine must get what a compilation alone gives. Non-trivial: every case (>= 2 goroutines compile on a cold set).",
+	Gen: func(t *rapid.T) any {
+		cs := &c05ColdCase{
+			Prog:    genProgram(t, progOpts{ticks: true, includes: true, inherit: true, stateful: true, maxDepth: 3, maxNodes: 15}),
+			Trim:    drawBool(t, "trim"),
+			LStrip:  drawBool(t, "lstrip"),
+			Variant: drawInt(t, 0, 11, "variant"),
+		}
+		k := drawInt(t, 2, 8, "k")
+		for i := 0; i < k; i++ {
+			cs.Ops = append(cs.Ops, pick(t, "op", []string{"FromFile", "FromFile", "FromCache", "FromString", "FromBytes", "RenderTemplateFile"}))
+		}
+		return cs
+	},
+	New:   func() any { return &c05ColdCase{} },
+	Check: checkC05Cold,
+})
+
+func TestC05ColdSet(t *testing.T) { runProp(t, "C05.coldset") }
